@@ -277,7 +277,7 @@ class _Objects:
             out = [set() for _ in range(n)]
             for g, grp in enumerate(self.summaries.get(nm, ())):
                 for i in grp:
-                    if i < n:
+                    if isinstance(i, int) and i < n:
                         out[i].add(("shared", e.lineno, e.col_offset, g, nm))
             return out
         return [set() for _ in range(n)]
